@@ -17,6 +17,7 @@ Section Ops.
   | OWrite (p c : bytes)              (* edit / revert a source, edit the rules file, tamper with a target *)
   | ORemove (p : bytes)               (* delete a file outside the ruler directory *)
   | OChmod (p : bytes) (x : bool)
+  | OMove (p q : bytes)               (* mv p q: an older copy put (back) at a path keeps its modification time *)
   | ORmCache (t : T)                  (* delete one cache entry *)
   | ORmRuler                          (* delete the ruler directory *)
   | ORmCacheDir
@@ -36,6 +37,7 @@ Section Ops.
     | OWrite p c => user (write_file w p c)
     | ORemove p => user (remove_file w p)
     | OChmod p x => user (set_exec w p x)
+    | OMove p q => user (move_file w p q)
     | ORmCache t =>
         user (upd_rd w (fun rd => mk_rdir (rd_exists rd)
                                     (match rd_cache rd with Some c => Some (aremove teqb c t) | None => None end)
@@ -66,6 +68,7 @@ End Ops.
 Arguments OWrite {T}.
 Arguments ORemove {T}.
 Arguments OChmod {T}.
+Arguments OMove {T}.
 Arguments ORmCache {T}.
 Arguments ORmRuler {T}.
 Arguments ORmCacheDir {T}.
